@@ -78,6 +78,12 @@ free, no buffer write and no store through a pointer — so threads may share a 
 usual callback pattern: pick the key by the token's `kid`). -/
 theorem C18_queries_readonly : ∀ q ∈ keyringQueryWrites, q.2 = 0 := by decide
 
+/-- **The library never reconfigures the process behind the application's back**: the only call to a
+process-wide switch from inside library code is the one-time provider selection in the load-time
+constructor `jwt_init`; no sign, verify, parse or keyring path calls `jwt_set_crypto_ops(_t)` or
+`jwt_set_alloc`. -/
+theorem C18_no_internal_reconfig : internalReconfigCalls = [("jwt_set_crypto_ops", "jwt_init")] := by decide
+
 example : (runSched toy () (fun _ => 0) [(0, 1), (1, 10), (0, 2), (1, 20)]).2 = [(0, 1), (1, 10), (0, 3), (1, 30)] := by decide
 example : proj 1 (runSched toy () (fun _ => 0) [(0, 1), (1, 10), (0, 2), (1, 20)]).2 = (runThread toy () 0 [10, 20]).2 := by decide
 
